@@ -248,6 +248,19 @@ func c06Check(in c06Input) (key, what string) {
 		if !strings.Contains(pm, "duplicate node") {
 			return "c06-dup-accepted", "sharing a node panicked, but not with the duplicate-node diagnosis: " + pm
 		}
+		// the same through a Restorer that has restored the (well-formed) file before: nodes it has
+		// seen in an earlier run are still rejected when they occur twice
+		if in.Mode == "dup" {
+			*s.list = orig
+			r := decorator.NewRestorer()
+			if pm0 := safely(func() { r.RestoreFile(f) }); pm0 == "" {
+				*s.list = shared
+				var rerr error
+				if pm1 := safely(func() { _, rerr = r.RestoreFile(f) }); pm1 == "" {
+					return "c06-dup-accepted", fmt.Sprintf("a %T used at two places was restored (err=%v) by a Restorer that had restored the file once before", e, rerr)
+				}
+			}
+		}
 		// cloned: prints both
 		cloned := append(append([]dst.Expr{}, orig[:s.i+1]...), dst.Clone(e).(dst.Expr))
 		cloned = append(cloned, orig[s.i+1:]...)
